@@ -1,7 +1,7 @@
 """C07 — position tokens: supply = sum; split/merge create no value; owner totals exact (dex/farm)."""
 from props.farm_common import explore_farm, replay_farm, into_part, merge
 
-ASSUMPTIONS = ["A-VM", "farm_position_migration_nonce at its default (no pre-migration positions)"]
+ASSUMPTIONS = ["A-VM", "farm_position_migration_nonce at its default (no pre-migration positions); the owner's upgrade() is exercised as an environment step and must change nothing"]
 RULE = ("same generator as C05 (partial-amount payments, merges of up to 5 positions with different entry indexes, transfers "
         "followed by claim/exit/merge/enter-with-merge by the receiver); non-trivial = merge where ceil != floor, or a split "
         "with inexact compounded share, or an operation using a position owned by another account; distinct by (op, flags, #positions)")
